@@ -35,7 +35,7 @@ RXV_SUBCOMMAND(c02) {
 		// real side: default cache (reference Argon2) for the interpreter, JIT+best-Argon2 cache for the fast VM
 		randomx_cache* cache = api::allocCache(RANDOMX_FLAG_DEFAULT);
 		if (!cache) R.harnessFail("alloc_cache failed");
-		api::initCache(cache, key.data(), key.size());
+		api::initCache(cache, cases::nn(key), key.size());
 		const uint8_t* real = (const uint8_t*)randomx_get_cache_memory(cache);
 		if (memcmp(real, mc.bytes(), 268435456) != 0) {
 			size_t off = 0; while (real[off] == mc.bytes()[off]) ++off;
